@@ -201,8 +201,13 @@ def c12(run):
 
 def c13(run):
     band_tables(run)
-    run.require_kinds("band/bandcfg")
-    run.rc = run.finish(assumptions=BAND_ASSUME, exhaustive=True)
+    t = run.record("chplan", "history", n=T(run, 56, 1400))
+    run.validate("chplan", t, "Trace_chplan", label="(V) enabled data-rates stay defined along channel-plan histories, all 14 bands", chunk=T(run, 150, 1500), group_on="reset")
+    t = run.record("chplan", "drranges")
+    run.validate("chplan", t, "Trace_chplan", label="(V) every band x every data-rate range a..b added as a custom channel", chunk=300, group_on="reset")
+    run.exhaustive.append("all data-rate ranges 0 <= a <= b <= 15 as one added channel, per band")
+    run.require_kinds("band/bandcfg", "chplan/op")
+    run.rc = run.finish(assumptions=BAND_ASSUME + ["channel-plan histories are seeded samples; the tables themselves are fully enumerated"], exhaustive=True)
 
 
 def c14(run):
@@ -220,6 +225,8 @@ def c15(run):
     run.design_check("ChannelPlanModel", workers=8, env={"VERIF_GEN": run.tier, "VERIF_GENMODE": "history"})
     t = run.record("chplan", "history", n=T(run, 56, 1400))
     run.validate("chplan", t, "Trace_chplan", label="(V) operation histories with arbitrary int arguments, all 14 bands", chunk=T(run, 150, 1500), group_on="reset")
+    t = run.record("chplan", "drranges")
+    run.validate("chplan", t, "Trace_chplan", label="(V) every band x every data-rate range a..b added as a custom channel", chunk=300, group_on="reset")
     t = run.record("chplan", "xlayer")
     run.validate("chplan", t, "Trace_chplan", label="(V) MAC-layer encodability of band outputs")
     t = run.record("band", "tables")
